@@ -529,8 +529,17 @@ def _num_ok(c, x):
     return not M.check_constraints({k: c.get(k) for k in M.NUM_C}, x)
 
 
+_BOUNDARY = [False]
+
+
 def _gen_num(draw, c: Optional[dict], floats: bool):
     cands = list(INTS) + [-2, 4, 6] + (FLOATS if floats else [])
+    if c and _BOUNDARY[0]:
+        # (data_for "boundary") the bounds themselves and their neighbours, valid or not
+        bounds = [c[k] for k in ("min", "max", "exc_min", "exc_max") if c.get(k) is not None]
+        if bounds:
+            b = pick(draw, bounds)
+            return b + pick(draw, [0, 0, 0, 1, -1] + ([0.5, -0.5] if floats else []))
     if c:
         ok = [x for x in cands if _num_ok(c, x)]
         if ok:
@@ -837,6 +846,12 @@ def data_for(draw, prog: dict, t: dict, dyn: str = "id", mix=(35, 30, 15, 20)):
             return valid(draw, prog, t, dyn), "dep_violation"
         finally:
             _BREAK_DEP[0] = False
+    if chance(draw, 0.1):
+        _BOUNDARY[0] = True
+        try:
+            return valid(draw, prog, t, dyn), "boundary"
+        finally:
+            _BOUNDARY[0] = False
     r = draw(st.integers(0, 99))
     if r < mix[0]:
         return valid(draw, prog, t, dyn), "valid"
